@@ -310,6 +310,7 @@ func checkAssemblerOrder(c *core.Ctx, pkg, rp string) {
 		r10 := c.Rule(rp+".10", "T", "a list built together with the byte count of its elements is never emptied without zeroing the count")
 		checkCoupledAccumulators(c, r10, pkg)
 	}
+	checkTailAdvance(c, c.Rule(rp+".16", "T", "a list built from (first,last) runs advances its tail to the run's last page"), pkg)
 	r11 := c.Rule(rp+".11", "T", "page queue links are stored in pairs: x.next = y together with y.prev = x")
 	checkPairedLinks(c, r11, pkg)
 	r9 := c.Rule(rp+".9", "T", "a delivered batch is not delivered again: on every path (across calls) from a delivery of a.ret to the next append into a.ret the batch is emptied")
@@ -1892,5 +1893,80 @@ func containerSiblings(c *core.Ctx, r *core.Rule) {
 	c.Counts["container_sibling_fields"] = n
 	if n < 1 {
 		r.Missing("reassembly/byteContainer sibling updates", "no common stored field found")
+	}
+}
+
+// checkTailAdvance (R9.16 / R10.16): where a list of pages is built from runs
+// returned as (first, last, …) — the run is linked with tail.next = first —
+// the variable that plays the tail is advanced to the run's *last* page.
+// Advancing it to `first` is the same thing for one-page runs and drops pages
+// 2..n of a longer run from the list (they are never delivered or released).
+func checkTailAdvance(c *core.Ctx, r *core.Rule, pkg string) {
+	p := c.P
+	n := 0
+	for _, fn := range pkgFunctions(p, pkg) {
+		k := 0
+		core.Instrs(fn, func(ins ssa.Instruction) {
+			st, ok := ins.(*ssa.Store)
+			if !ok {
+				return
+			}
+			fa, ok := st.Addr.(*ssa.FieldAddr)
+			if !ok || core.FieldOfAddr(fa).Name() != "next" {
+				return
+			}
+			ex, ok := st.Val.(*ssa.Extract)
+			if !ok || ex.Index != 0 {
+				return
+			}
+			call, ok := ex.Tuple.(*ssa.Call)
+			if !ok {
+				return
+			}
+			tup, ok := call.Type().(*types.Tuple)
+			if !ok || tup.Len() < 2 || !isPagePtr(tup.At(0).Type()) || !isPagePtr(tup.At(1).Type()) {
+				return
+			}
+			// the tail: fa.X must be (a φ of) a loop-carried variable
+			tail, ok := fa.X.(*ssa.Phi)
+			if !ok {
+				return
+			}
+			n++
+			k++
+			key := fmt.Sprintf("%s/tail-advance#%d", core.FnKey(fn), k)
+			// values flowing back into the tail φ from inside the loop
+			bad := false
+			seen := map[ssa.Value]bool{}
+			var walk func(v ssa.Value, d int)
+			walk = func(v ssa.Value, d int) {
+				if d > 6 || seen[v] {
+					return
+				}
+				seen[v] = true
+				switch x := v.(type) {
+				case *ssa.Phi:
+					if x == tail {
+						return
+					}
+					for _, e := range x.Edges {
+						walk(e, d+1)
+					}
+				case *ssa.Extract:
+					if x.Tuple == ssa.Value(call) && x.Index == 0 {
+						bad = true
+					}
+				}
+			}
+			for i, pr := range tail.Block().Preds {
+				if tail.Block().Dominates(pr) {
+					walk(tail.Edges[i], 0)
+				}
+			}
+			r.Check(!bad, key, p.InstrPos(ins), "the tail is advanced to the last page of the run", "after linking a run of pages behind the tail (tail.next = first) the tail variable is set to the run's first page on some path, not to its last: for a run of more than one page the following link overwrites first.next, so pages 2..n of the run drop out of the list — they are neither delivered (or kept) nor given back to the page cache")
+		})
+	}
+	if pkg == "reassembly" && n < 1 {
+		r.Missing(pkg+"/run linking", "no tail.next = first of a (first,last) run found")
 	}
 }
